@@ -4,6 +4,7 @@ import (
 	"fmt"
 	"os"
 	"path/filepath"
+	"regexp"
 	"sort"
 	"strings"
 	"time"
@@ -124,9 +125,31 @@ func (e *Engine) report(prop, tier string, seed int, us []*Unit, luaUnits []stri
 	if !e.noReplay || e.forceBounded {
 		bounded = e.runBounded(prop, tier)
 	}
-	for _, b := range bounded {
+	for bi := range bounded {
+		b := &bounded[bi]
 		if b.Passed {
 			fmt.Printf("bounded-ok       %s (%s) %s %.1fs\n", b.Name, b.Bound, b.Stats, b.WallS)
+			continue
+		}
+		// a listed known finding, identified by the failing input the stand-in reports
+		isKnown := false
+		for i := range known {
+			k := &known[i]
+			if k.Property != prop || k.Status != "known" || k.Obligation != "bounded/"+b.Name || k.InputRegex == "" || b.replay == nil || !b.replay.Reproduced {
+				continue
+			}
+			if re, err := regexp.Compile(k.InputRegex); err == nil && re.MatchString(b.replay.Input) {
+				isKnown = true
+				if !knownPrinted[k.Obligation+k.What] {
+					knownPrinted[k.Obligation+k.What] = true
+					fmt.Printf("KNOWN-FINDING: property=%s %s [%s: %s]\n", prop, k.What, k.Obligation, trunc(b.replay.Input, 300))
+				}
+				break
+			}
+		}
+		if isKnown {
+			res.known++
+			b.Known = true
 			continue
 		}
 		res.violations++
@@ -254,7 +277,7 @@ func (e *Engine) report(prop, tier string, seed int, us []*Unit, luaUnits []stri
 func boundedEvidence(bs []BoundedResult) []any {
 	out := []any{}
 	for _, b := range bs {
-		out = append(out, map[string]any{"name": b.Name, "covers": b.Covers, "bound": b.Bound, "cmd": b.Cmd, "passed": b.Passed, "stats": b.Stats, "wall_s": b.WallS,
+		out = append(out, map[string]any{"name": b.Name, "covers": b.Covers, "bound": b.Bound, "cmd": b.Cmd, "passed": b.Passed, "known_finding": b.Known, "stats": b.Stats, "wall_s": b.WallS,
 			"note": "BOUNDED stand-in: executes the real code on every input within the bound and compares with the reference from the property statement; not a proof, not counted in discharged"})
 	}
 	return out
